@@ -219,7 +219,7 @@ class Check:
                 mm = re.match(r"\s*end\s+(\S+)", line)
                 if mm and ns and ns[-1] == mm.group(1):
                     ns.pop()
-                mm = re.match(r"\s*(?:protected\s+|private\s+)?theorem\s+(\S+)", line)
+                mm = re.match(r"\s*(?:protected\s+)?theorem\s+(\S+)", line)
                 if mm:
                     names.append((m, ".".join(ns + [mm.group(1)])))
         return names
